@@ -102,13 +102,14 @@ func newCounters() *Counters {
 
 // Sim is one simulated world.
 type Sim struct {
-	Cfg   Config
-	Flags Flags
-	Prof  *Profile
-	W     *ecs.World
-	M     *Model
-	ids   [NumTypes]ecs.ID
-	pads  []ecs.ID
+	Cfg     Config
+	Flags   Flags
+	Prof    *Profile
+	W       *ecs.World
+	M       *Model
+	ids     [NumTypes]ecs.ID
+	pads    []ecs.ID
+	resPads []ecs.ResID // dynamically registered resource types (C18)
 
 	filters   []*FilterInst
 	queries   []*OpenQuery
